@@ -460,9 +460,15 @@ func (fc *FnCtx) callResult(name string) (Val, bool) {
 			if b == fc.curBlock && i >= fc.curIdx {
 				continue
 			}
-			f, ok := c.Call.Value.(*ssa.Function)
-			if !ok || (fnName(f) != name && f.Name() != name) {
-				continue
+			if c.Call.IsInvoke() {
+				if c.Call.Method.Name() != name {
+					continue
+				}
+			} else {
+				f, ok := c.Call.Value.(*ssa.Function)
+				if !ok || (fnName(f) != name && f.Name() != name) {
+					continue
+				}
 			}
 			if _, done := fc.vals[c]; !done {
 				continue
